@@ -5,7 +5,8 @@ C16, named probe `abort-nested-coroutines` (hunt round 2, finding N7 / report C1
 CLASS (deterministic, every run): `py_gql.graphql()` itself (AsyncIORuntime on a private loop, ONLY coroutine
 resolvers, no thread, no future completed by the harness: the schedule is the number of loop ticks each resolver
 sleeps), a root field `abort` that ends the request (ExecutionError -> a response with data null), and a sibling
-`a` whose value is an object / a list of objects / a nested object with coroutine-resolved children. All offsets
+`a` whose value is an object / a list of objects / a nested object with coroutine-resolved children; one shape with the aborting field BELOW the root
+(`{ w { abort a { x y } } }`). All offsets
 `ticks(a) - ticks(abort)` in -1 .. 4 for `ticks(abort)` in 0 .. 3, both document orders, leaves that return at once
 or after one tick. The dangerous schedule is offset = +1 (..+depth): the children of `a` have had their start hook,
 their tasks exist but did not run their first step when the root gather cancels `a`.
@@ -24,7 +25,8 @@ NAME = "abort-nested-coroutines"
 SDL = """
 type B { x: Int y: Int }
 type A { x: Int y: Int b: B }
-type Query { abort: Int a: A l: [A] }
+type W { abort: Int a: A }
+type Query { abort: Int a: A l: [A] w: W }
 """
 
 SHAPES = {
@@ -32,18 +34,19 @@ SHAPES = {
     "object-abort-last": ("{ a { x y } abort }", "a"),
     "nested": ("{ abort a { b { x y } y } }", "a"),
     "list": ("{ abort l { x y } }", "l"),
+    "abort-below-root": ("{ w { abort a { x y } } }", "a"),
 }
 
 
 def variants(tier="quick"):
-    for shape in ("object", "object-abort-last", "nested", "list"):
+    for shape in ("object", "object-abort-last", "nested", "list", "abort-below-root"):
         for abort_ticks in (0, 1, 2, 3):
             for offset in (-1, 0, 1, 2, 3, 4):
                 a_ticks = abort_ticks + offset
                 if a_ticks < 0:
                     continue
                 for leaf_ticks in (0, 1):
-                    if leaf_ticks and (shape == "object-abort-last" or abort_ticks > 1) and tier == "quick":
+                    if leaf_ticks and (shape in ("object-abort-last", "abort-below-root") or abort_ticks > 1) and tier == "quick":
                         continue
                     yield [shape, abort_ticks, a_ticks, leaf_ticks]
 
@@ -98,6 +101,9 @@ def run_one(shape, abort_ticks, a_ticks, leaf_ticks):
     schema.register_resolver("Query", "abort", abort)
     schema.register_resolver("Query", "a", obj)
     schema.register_resolver("Query", "l", lst)
+    schema.register_resolver("Query", "w", inner)
+    schema.register_resolver("W", "abort", abort)
+    schema.register_resolver("W", "a", obj)
     schema.register_resolver("A", "b", inner)
     for t in ("A", "B"):
         for f in ("x", "y"):
@@ -123,8 +129,12 @@ def run_one(shape, abort_ticks, a_ticks, leaf_ticks):
 
 
 def role_of(path, shape):
-    if path == ("abort",):
+    if path[-1] == "abort":
         return "abort"
+    if shape == "abort-below-root":
+        path = path[1:]
+        if not path:
+            return "wrapper"
     if len(path) == 1:
         return "parent"
     return "child"
